@@ -879,7 +879,7 @@ MODEL_GRID = [
 def plan(tier, seed, args):
     rng = Rng(derive(seed, PROP, "plan"))
     cases = []
-    ndraw = 2 if tier == "quick" else 12
+    ndraw = 3 if tier == "quick" else 12
     # enumerated: every registered map class x draws x styles
     for nm in all_map_names():
         for d in range(ndraw):
@@ -911,7 +911,7 @@ def plan(tier, seed, args):
     for d in range(2 if tier == "quick" else 8):
         cases.append({"kind": "corrupt", "seed": rng.below(10**6)})
     # seeded histories
-    nh = args.cases if args.cases is not None else (60 if tier == "quick" else 12000)
+    nh = args.cases if args.cases is not None else (240 if tier == "quick" else 12000)
     for i in range(nh):
         cases.append({"kind": "history", "seed": derive(seed, PROP, "hist", i) % (10**9), "restart": (i % (6 if tier == "quick" else 10) == 0)})
     # cheap cases last would starve the long ones; interleave deterministically
